@@ -102,6 +102,7 @@ Obl(e) ==
          <<"must-accept-canonical", Canonical(e.m, e.b) => (Accepted(e) /\ e.val = Dec(e.m, e.b).val)>>,
          <<"must-reject", MustReject(e.m, e.b) => ~Accepted(e)>>,
          <<"accepted-canonical-no-longer-and-redecodes", Accepted(e) => AcceptedOK(e.m, e.b, e.val)>> >>
+    [] e.op = "RConsume" -> << <<"quiet", Quiet(e)>> >>      \* the object's encoding handed to a consumer: changes nothing
     [] e.op = "RMarshal" -> <<
          <<"quiet", Quiet(e)>>,
          <<"marshal-is-current-value", cur.known => e.out = Enc(e.m, cur.val)>> >>
